@@ -640,7 +640,7 @@ func translateExt(fset *token.FileSet, load fileLoader, sp spec, known map[strin
 	x := &xtr{fset: fset, sp: sp, env: map[string]*xty{}, structs: map[string]*xstruct{}, consts: map[string]xval{},
 		shared: map[string]bool{}, loops: map[ast.Stmt]*loopInfo{}, ptrParams: map[string]bool{}, params: map[string]bool{}, prims: map[string]bool{},
 		aliases: map[string]*xty{}, known: known, uses: map[string]useSpec{}, opaque: map[string]string{},
-		ordParams: map[string]bool{}, methods: map[string]*xmethod{}, pkgPrims: map[string]string{}, capVars: map[string]string{}, fnBody: fd.Body}
+		ordParams: map[string]bool{}, methods: map[string]*xmethod{}, pkgPrims: map[string]string{}, capVars: map[string]string{}, fnBody: fd.Body, asserts: map[string]string{}}
 	for _, cv := range sp.CapVars {
 		nt := strings.SplitN(cv, "=", 2)
 		if len(nt) != 2 {
@@ -695,6 +695,18 @@ func translateExt(fset *token.FileSet, load fileLoader, sp spec, known map[strin
 	}
 	for _, u := range sp.Uses {
 		x.uses[u.Go] = u
+	}
+	var assertBinders []string
+	for _, a := range sp.Asserts {
+		nt := strings.SplitN(a, "=", 2)
+		var ot []string
+		if len(nt) == 2 {
+			ot = strings.SplitN(nt[1], ":", 2)
+		}
+		if len(ot) != 2 {
+			fail(token.Position{Filename: sp.File}, "spec.Asserts entry %q", a)
+		}
+		x.asserts[ot[1]] = nt[0] + "=" + ot[0]
 	}
 	x.fname = sp.Func
 	if sp.Recv != "" {
@@ -792,6 +804,16 @@ func translateExt(fset *token.FileSet, load fileLoader, sp spec, known map[strin
 	for _, mn := range methodNames {
 		primBinders = append(primBinders, fmt.Sprintf("(%s : %s)", mn, x.env[mn].lean()))
 	}
+	for goTy, v := range x.asserts {
+		nv := strings.SplitN(v, "=", 2)
+		te, err := parser.ParseExpr(goTy)
+		if err != nil {
+			x.bad(fd, "spec.Asserts type %q: %v", goTy, err)
+		}
+		assertBinders = append(assertBinders, fmt.Sprintf("(%s : %s → Option %s)", nv[0], nv[1], parenT(x.goTy(te).lean())))
+	}
+	sort.Strings(assertBinders)
+	primBinders = append(primBinders, assertBinders...)
 	for _, p := range sp.Prims {
 		if p == "growCap" { // the capacity `append` chooses when it has to grow: (old capacity, new length) ↦ new capacity
 			x.env["growCap"] = &xty{k: kFunc, params: []*xty{tInt, tInt}, results: []*xty{tInt}}
@@ -816,6 +838,21 @@ func translateExt(fset *token.FileSet, load fileLoader, sp spec, known map[strin
 		ty := x.goTy(te)
 		if ty.k != kFunc {
 			x.bad(fd, "spec.Prims entry %q is not a function type", p)
+		}
+		if rm := strings.SplitN(nt[0], ".", 2); len(rm) == 2 {
+			if _, isStruct := x.structs[rm[0]]; isStruct {
+				// "Recv.Method=func(..) R": a method of a struct of the spec that stays abstract; called as `v.Method(..)`
+				if len(ty.results) != 1 || ty.results[0].k == kErr {
+					x.bad(fd, "spec.Prims entry %q: not a one-result method of a struct of the spec", p)
+				}
+				if x.known == nil {
+					x.known = map[string]*xty{}
+				}
+				x.known[nt[0]] = ty
+				full := &xty{k: kFunc, params: append([]*xty{x.structTy(rm[0])}, ty.params...), results: ty.results}
+				primBinders = append(primBinders, fmt.Sprintf("(%s_%s : %s)", rm[0], rm[1], full.lean()))
+				continue
+			}
 		}
 		pname := nt[0]
 		if i := strings.LastIndex(pname, "."); i >= 0 { // a function of another package, called as pkg.Name(..)
@@ -983,6 +1020,21 @@ func translateExt(fset *token.FileSet, load fileLoader, sp spec, known map[strin
 		}
 		known[sp.Func] = ft
 	}
+	// a method of a struct value that neither loops, nor changes its receiver, nor fails: callable as `v.M(..)` from
+	// functions translated later into the same module (named results without an error are a plain tuple too)
+	hasErr := false
+	for _, r := range x.results {
+		hasErr = hasErr || r.k == kErr || r.k == kErrOpt
+	}
+	if !x.hasExit && len(x.extras) == 0 && len(pre) == 0 && fd.Recv != nil && sp.Frag == nil && !hasErr && len(x.tparams) == 0 && sp.Name == "" {
+		ft := &xty{k: kFunc, results: x.results}
+		for _, p := range fd.Type.Params.List {
+			for range p.Names {
+				ft.params = append(ft.params, x.goTy(p.Type))
+			}
+		}
+		known[sp.Recv+"."+sp.Func] = ft
+	}
 	return out
 }
 
@@ -996,6 +1048,28 @@ func fragmentFunc(fset *token.FileSet, fd *ast.FuncDecl, sp spec) *ast.FuncDecl 
 	}
 	var found []ast.Stmt
 	matches := 0
+	if fr.Field != "" {
+		// an expression fragment: the initialiser of the field fr.Field in the one composite literal that sets it
+		var val ast.Expr
+		ast.Inspect(fd.Body, func(n ast.Node) bool {
+			if kv, ok := n.(*ast.KeyValueExpr); ok && isIdent(kv.Key, fr.Field) {
+				matches++
+				val = kv.Value
+			}
+			return true
+		})
+		if matches != 1 {
+			fail(fset.Position(fd.Pos()), "fragment of %s: %d composite literals set the field %s", sp.Func, matches, fr.Field)
+		}
+		src := fmt.Sprintf("package p\nfunc f(%s) (%s) { return nil }\n", strings.Join(fr.Params, ", "), fr.FieldType)
+		pf, err := parser.ParseFile(fset, "fragment of "+sp.File+":"+sp.Func, src, parser.SkipObjectResolution)
+		if err != nil {
+			fail(fset.Position(fd.Pos()), "fragment signature: %v", err)
+		}
+		nf := pf.Decls[0].(*ast.FuncDecl)
+		nf.Body.List[0].(*ast.ReturnStmt).Results = []ast.Expr{val}
+		return nf
+	}
 	if fr.Case != "" {
 		// the whole body of the one case clause (of a value switch) with this label text
 		ast.Inspect(fd.Body, func(n ast.Node) bool {
@@ -1049,6 +1123,18 @@ func fragmentFunc(fset *token.FileSet, fd *ast.FuncDecl, sp spec) *ast.FuncDecl 
 		}
 		ptypes[nt[0]] = nt[1]
 	}
+	isParam := map[string]bool{}
+	for n := range ptypes {
+		isParam[n] = true
+	}
+	for _, p := range fr.Locals {
+		nt := strings.SplitN(p, " ", 2)
+		if len(nt) != 2 || isParam[nt[0]] {
+			fail(fset.Position(fd.Pos()), "fragment local %q", p)
+		}
+		ptypes[nt[0]] = nt[1]
+	}
+	abstracted := map[string]int{}
 	var rts []string
 	for _, r := range fr.Results {
 		t, ok := ptypes[r]
@@ -1123,6 +1209,27 @@ func fragmentFunc(fset *token.FileSet, fd *ast.FuncDecl, sp spec) *ast.FuncDecl 
 					fail(fset.Position(t.Pos()), "return inside the fragment of %s (fragSpec.EarlyReturn is %q)", sp.Func, fr.EarlyReturn)
 				}
 				out = append(out, &ast.ReturnStmt{Return: t.Return, Results: final.Results})
+			case *ast.AssignStmt:
+				skip := false
+				for _, a := range fr.Abstract {
+					if line(t) == a {
+						// not translated: what it defines are parameters of the fragment
+						if t.Tok != token.DEFINE {
+							fail(fset.Position(t.Pos()), "abstracted statement %q is not a definition", a)
+						}
+						for _, l := range t.Lhs {
+							id, ok := l.(*ast.Ident)
+							if !ok || id.Name != "_" && !isParam[id.Name] {
+								fail(fset.Position(t.Pos()), "abstracted statement %q defines something that is not a parameter of the fragment", a)
+							}
+						}
+						abstracted[a]++
+						skip = true
+					}
+				}
+				if !skip {
+					out = append(out, s)
+				}
 			case *ast.BlockStmt:
 				out = append(out, blk(t))
 			case *ast.IfStmt:
@@ -1165,6 +1272,11 @@ func fragmentFunc(fset *token.FileSet, fd *ast.FuncDecl, sp spec) *ast.FuncDecl 
 		return out
 	}
 	nf.Body.List = append(rewrite(found), nf.Body.List...)
+	for _, a := range fr.Abstract {
+		if abstracted[a] != 1 {
+			fail(fset.Position(fd.Pos()), "fragment of %s: the abstracted statement %q occurs %d times in it", sp.Func, a, abstracted[a])
+		}
+	}
 	return nf
 }
 
